@@ -1,0 +1,42 @@
+//go:build verif
+
+/*
+   Copyright The containerd Authors.
+
+   Licensed under the Apache License, Version 2.0 (the "License");
+   you may not use this file except in compliance with the License.
+   You may obtain a copy of the License at
+
+       http://www.apache.org/licenses/LICENSE-2.0
+
+   Unless required by applicable law or agreed to in writing, software
+   distributed under the License is distributed on an "AS IS" BASIS,
+   WITHOUT WARRANTIES OR CONDITIONS OF ANY KIND, either express or implied.
+   See the License for the specific language governing permissions and
+   limitations under the License.
+*/
+
+package snapshot
+
+import (
+	"context"
+	"fmt"
+
+	"github.com/containerd/containerd/v2/core/snapshots"
+	"github.com/containerd/containerd/v2/core/snapshots/storage"
+)
+
+// VerifIDMap returns the id -> key map of the snapshotter's metadata store
+// (read-only transaction). Verification builds only.
+func VerifIDMap(ctx context.Context, sn snapshots.Snapshotter) (map[string]string, error) {
+	o, ok := sn.(*snapshotter)
+	if !ok {
+		return nil, fmt.Errorf("not a stargz snapshotter: %T", sn)
+	}
+	ctx, t, err := o.ms.TransactionContext(ctx, false)
+	if err != nil {
+		return nil, err
+	}
+	defer t.Rollback()
+	return storage.IDMap(ctx)
+}
